@@ -8,6 +8,8 @@ CONSTANTS
   PreFix = FALSE
   CoarseCancel = FALSE
   Modes = {"none", "nowait", "wait"}
+  Modes2 = {"none"}
+  NeverExits = {}
 VIEW View
 INVARIANTS TypeOK ResultAtMostOnce ResultConsistent TimeoutIsUnknown CancelCoversRegistered ClosedMeansDead
   QuiescentUnlessCbp CbpOnlyRegistered NoAcceptAfterShutdown QuiescentAfterReturnedWait
